@@ -1,6 +1,6 @@
 (* Proofs/C10.v -- lemmas about Model/C10.v *)
 From Coq Require Import List Arith NArith Lia Bool Permutation.
-From EZK Require Import Lib.Bytes Lib.ListX Model.C10.
+From EZK Require Import Gen.Tables Lib.Bytes Lib.ListX Model.C10.
 Import ListNotations.
 Open Scope N_scope.
 Arguments N.add : simpl never.
@@ -443,4 +443,21 @@ Proof.
     eexists. split; [apply entries_find_update_same; [reflexivity|exact He]|reflexivity].
   - exists e. split; [|reflexivity]. rewrite entries_update_other; auto.
     intros ->. assert (dkey_eqb k0 k0 = true) by now apply dkey_eqb_eq. congruence.
+Qed.
+
+(* ---------- the guard of the backlog: a parked number is not given away ---------- *)
+Lemma parked_number_refused st r n x :
+  dlg_backlog_no_overwrite = true -> next st = Some n -> n < r_cseq r -> bl_lookup (r_cseq r) (backlog st) = Some x ->
+  refused st r = true.
+Proof.
+  intros Hf Hn Hlt Hl. unfold refused. rewrite Hf, Hn, Hl. cbn [andb]. apply N.ltb_lt in Hlt. now rewrite Hlt.
+Qed.
+
+Lemma parked_not_displaced es cid ft t r k e n x :
+  dlg_backlog_no_overwrite = true ->
+  key_of_request cid ft (Some t) = Some k -> entries_find k es = Some e ->
+  next (e_st e) = Some n -> n < r_cseq r -> bl_lookup (r_cseq r) (backlog (e_st e)) = Some x ->
+  layer_step es (Recv cid ft (Some t) r) = (es, NotIntercepted).
+Proof.
+  intros Hf Hk He Hn Hlt Hl. cbn [layer_step]. rewrite Hk, He. now rewrite (parked_number_refused _ _ n x Hf Hn Hlt Hl).
 Qed.
